@@ -74,9 +74,10 @@ func parsePlugins(ifi rawInterface, maxInterval time.Duration, epoch time.Time) 
 	// produce confusing and ineffective output to clients.
 	for _, rt1 := range routes {
 		for _, rt2 := range routes {
-			// Skip when rt1 and rt2 are identical or one of them is the auto
-			// route.
-			if rt1 == rt2 || rt1.Prefix == autoRoute || rt2.Prefix == autoRoute {
+			// Skip when rt1 and rt2 are identical or exactly one of them is the
+			// auto route. The auto route may only be specified once, just like
+			// the auto prefix: a second one would repeat every route.
+			if rt1 == rt2 || (rt1.Prefix == autoRoute) != (rt2.Prefix == autoRoute) {
 				continue
 			}
 
